@@ -74,6 +74,27 @@ Theorem C14_no_descriptors_readable : forall HASH rs, Forall json_supported rs -
   /\ Forall2 (fun doc p => d_name (r_desc p) = fallback_name json_cfg /\ scalar_view_record p = scalar_view_doc json_cfg doc) docs ps.
 Proof. intros HASH. exact (top_no_descriptors_finite json_cfg C14_generated_cfg_ok HASH). Qed.
 
+(* REFUSED WRITES: the application catches the exception of a write() that json.dumps refuses (a record whose
+   pack_record is None) and carries on.  Such a write emits no record document; it emits the descriptor document and
+   registers the descriptor exactly when the registry did not hold it (file and registry stay in step) ... *)
+Theorem C14_refused_write_step : forall HASH on reg r, pack_record json_cfg HASH on r = None ->
+  write_step json_cfg HASH on reg r =
+  if known HASH true reg (r_desc r) then (reg, [])
+  else ((ident_of HASH (r_desc r), r_desc r) :: reg, if on then [pack_descriptor json_cfg (r_desc r)] else []).
+Proof. intros HASH. exact (top_refused_step json_cfg C14_generated_cfg_ok HASH). Qed.
+
+(* ... and every record whose write succeeded reads back, in order, whatever was refused in between -- also when the
+   refused record was the first of its type *)
+Theorem C14_refused_writes : forall HASH rs,
+  Forall (fun r => json_supported r \/ pack_record json_cfg HASH true r = None) rs ->
+  read_json json_cfg HASH (write_tolerant json_cfg HASH true [] rs) = Some (filter (accepted json_cfg HASH true) rs).
+Proof. intros HASH. exact (top_refused_writes json_cfg C14_generated_cfg_ok HASH). Qed.
+
+(* without refusals the tolerant writer is the writer of the theorems above *)
+Theorem C14_tolerant_writer_agrees : forall HASH on rs, Forall json_supported rs ->
+  write_json json_cfg HASH on rs = Some (write_tolerant json_cfg HASH on [] rs).
+Proof. intros HASH. exact (top_tolerant_agrees json_cfg C14_generated_cfg_ok HASH). Qed.
+
 Theorem C14_scalars_preserved : forall j, scalar_wf j = true -> is_scalar j = true -> scalar_json_of (plain_of_json j) = Some j.
 Proof. exact scalars_preserved. Qed.
 
